@@ -92,6 +92,7 @@ func oracleCNTNonNative(ops []content.Operator) (bool, string) {
 }
 
 func replayCNTNonNative(input string) (bool, string) {
+	cntWireSetup()
 	ops, err := cntOpsUnwire(input)
 	if err != nil {
 		return true, "bad replay input: " + err.Error()
@@ -119,6 +120,7 @@ func oracleCNTSplit(ops []content.Operator, cuts []int) (bool, string) {
 }
 
 func replayCNTRoundTrip(input string) (bool, string) {
+	cntWireSetup()
 	ops, err := cntOpsUnwire(input)
 	if err != nil {
 		return true, "bad replay input: " + err.Error()
@@ -127,6 +129,7 @@ func replayCNTRoundTrip(input string) (bool, string) {
 }
 
 func replayCNTSplit(input string) (bool, string) {
+	cntWireSetup()
 	parts := strings.SplitN(input, " ", 2)
 	ops, err := cntOpsUnwire(parts[1])
 	if err != nil {
@@ -144,6 +147,7 @@ func replayCNTSplit(input string) (bool, string) {
 }
 
 func replayCNTChunking(input string) (bool, string) {
+	cntWireSetup()
 	data, err := hex.DecodeString(input)
 	if err != nil {
 		return true, "bad replay input"
@@ -185,6 +189,7 @@ func cntImplScanLine(data []byte) string {
 }
 
 func runCNTRoundTrip(c *Ctx) {
+	cntWireSetup()
 	r := c.R
 	nSeq := 8000
 	if c.Thorough {
@@ -311,6 +316,8 @@ func runCNTRoundTrip(c *Ctx) {
 		{op("BDC", pdf.Name(""), pdf.Dict{}), op("EMC")},
 		{op("Tf", pdf.Name("F1"), pdf.Integer(12)), op("Tf", pdf.Name("F#1 /"), pdf.Real(9.5))},
 		{op("foo", nil, pdf.Boolean(true), pdf.Boolean(false), pdf.Array(nil))},
+		// D99: a typed nil Dict is the null object ("N" on the wire), pdf.Dict{} is <<>> ("d>")
+		{op("foo", pdf.Dict(nil), pdf.Dict{}, pdf.Array{pdf.Dict(nil), pdf.Dict{}}, pdf.Dict{"K": pdf.Dict(nil), "E": pdf.Dict{}}), img(wh(pdf.Dict{"Nn": pdf.Dict(nil), "Ee": pdf.Dict{}}), "x")},
 		{op("x", pdf.Array{nil, pdf.Array{pdf.Dict{"K": pdf.Array{}}}})},
 		{op("n1", nest(255, pdf.Integer(1), 0))},
 		{op("n2", nest(256, pdf.Integer(1), 3))},
@@ -364,7 +371,7 @@ func runCNTRoundTrip(c *Ctx) {
 	}
 	for i, ops := range corpus {
 		check(ops, "")
-		if i == 8 || i == 28 {
+		if i == 8 || i == 29 {
 			c.Sample("corpus: " + cntOpsWire(ops, false))
 		}
 	}
@@ -461,6 +468,7 @@ func cntImplOneLine(data []byte) (line string) {
 }
 
 func runCNTTokens(c *Ctx) {
+	cntWireSetup()
 	r := c.R
 	maxStr := 3
 	nSoup := 15000
